@@ -11,7 +11,12 @@
 #include <math.h>
 #include <igris/dprint.h>
 static std::vector<unsigned char> dbg;
-extern "C" void debug_putchar(char c) { dbg.push_back((unsigned char)c); if (dbg.size() > 4096) { vlog::flush(); _exit(9); } }
+// "Dprn": re-entrant sink - after every character it receives, the sink itself prints a float and an integer through the debug
+// printers (into a sink of its own)
+static int g_nest = 0; static std::vector<unsigned char> dbg_in;
+extern "C" void debug_printdec_float_prec(float, int); extern "C" void debug_printdec_double_prec(double, int);
+extern "C" void debug_putchar(char c) { if (g_nest == 2) { dbg_in.push_back((unsigned char)c); return; } dbg.push_back((unsigned char)c); if (dbg.size() > 4096) { vlog::flush(); _exit(9); }
+    if (g_nest == 1) { g_nest = 2; dbg_in.clear(); debug_printdec_float_prec(98765.4375f, 3); debug_printdec_double_prec(-0.000123456789, 9); g_nest = 1; } }
 extern "C" void debug_write(const char *c, int n) { for (int i = 0; i < n; ++i) debug_putchar(c[i]); }
 extern "C" { double igv_strtod(const char *, char **); double igv_atof(const char *); double igv32_strtod(const char *, char **); double igv32_atof(const char *); }
 using namespace vlog;
@@ -74,12 +79,12 @@ int main(int argc, char **argv) {
             char *r = t[4] == "ftoa" ? igris_ftoa(d, (char *)buf, (int8_t)prec) : igris_f64toa(d, (char *)buf, (int8_t)prec);
             // x: the argument; y: the argument as binary32 (the unit of the representation error of this renderer)
             Ev e("Render"); e.str("fn", t[4].c_str()).i("prec", prec); dec64(e, "x_", d); dec32(e, "y_", (float)d); render_obs(e, buf, r); e.end(); free(buf);
-        } else if (t[0] == "Dpr") {   // Dpr <hi32> <lo32> <prec> <fn>   fn: dprint_double | dprint_float  (debug printers; output through debug_putchar)
+        } else if (t[0] == "Dpr" || t[0] == "Dprn") {   // Dpr <hi32> <lo32> <prec> <fn>   fn: dprint_double | dprint_float  (debug printers; output through debug_putchar)
             unsigned long long bits = ((unsigned long long)num(t[1]) << 32) | (unsigned long long)num(t[2]); int prec = (int)num(t[3]); double d; memcpy(&d, &bits, 8); dbg.clear();
-            Ev e("Render"); e.str("fn", t[4].c_str()).i("prec", prec);
+            Ev e("Render"); e.str("fn", t[4].c_str()).i("prec", prec).i("nested", t[0] == "Dprn" ? 1 : 0); g_nest = t[0] == "Dprn" ? 1 : 0;
             if (t[4] == "dprint_float") { debug_printdec_float_prec((float)d, prec); dec32(e, "x_", (float)d); dec32(e, "y_", (float)d); }
             else { debug_printdec_double_prec(d, prec); dec64(e, "x_", d); dec64(e, "y_", d); }
-            e.bytes("text", dbg.data(), dbg.size()).i("terminated", 1).i("touched", (long)dbg.size()).i("retoff", 0); e.end();
+            g_nest = 0; e.bytes("text", dbg.data(), dbg.size()).i("terminated", 1).i("touched", (long)dbg.size()).i("retoff", 0); e.end();
         } else if (t[0] == "Sweep32") {   // Sweep32 <precs> <lo> <hi> <stride>: every binary32 pattern in [lo, hi) x every listed precision
             auto precs = list(t[1]); unsigned long long lo = (unsigned long long)num(t[2]), hi = (unsigned long long)num(t[3]), stride = (unsigned long long)num(t[4]);
             unsigned long long count = 0, suspects = 0; unsigned char *buf = (unsigned char *)malloc(BUFSZ);
